@@ -483,17 +483,17 @@ func (a Assumption) String() string {
 // ---------------------------------------------------------------- engine
 
 type Ctx struct {
-	P      *load.Program
-	CG     *callgraph.Graph
-	Assume []Assumption
-	memo   map[string]bool
+	P         *load.Program
+	CG        *callgraph.Graph
+	Assume    []Assumption
+	memo      map[string]bool
 	foldDepth int
 	phiLvl    int // 0 = top level; k+1 = evaluating at level k
 	reachLvl  map[int]map[*ssa.Function]map[*ssa.BasicBlock]bool
 	// substKey identifies the active parameter substitution (callee examined
 	// on behalf of one call site), part of the memo key
 	substKey string
-	active map[string]bool
+	active   map[string]bool
 	// Steps counts CFG edges examined (reported as evidence).
 	Steps int
 	// OnlyReturn, if set, restricts the exits considered to this instruction.
